@@ -24,7 +24,7 @@ DONE = {
   'The four RMSD routines (fast/SQL x i/L), compute_izone/compute_lzone, check_residues, the identity-keyed intersections and the three '
   'fixed-column readers are modelled on top of the contact model (C05/C14) and the superposition model (C13), with the rotation kernel as a '
   'recorded oracle (C06); reader columns, zone format, contact test and get_rmsd shape are regenerated. Coq proves: the readers read the wwPDB '
-  'columns; the SQL route pairs by identity for any record order and the SQL i-RMSD is exactly its definition (the specification pairs of the zone) for any decoy, the fast i-RMSD and the fast L-RMSD under the same-relative-order condition, the SQL L-RMSD on structures listing the same atoms in the same order when it picks the definition's long chain (partial; F5 is the other case); missing atoms are left out; the fast route pairs by identity under the '
+  'columns; the SQL route pairs by identity for any record order and the SQL i-RMSD is exactly its definition (the specification pairs of the zone) for any decoy, the fast i-RMSD and the fast L-RMSD under the same-relative-order condition, the SQL L-RMSD on structures listing the same atoms in the same order when it picks the long chain named by the definition (partial; F5 is the other case); missing atoms are left out; the fast route pairs by identity under the '
   'same-relative-order condition and is refuted without it (F6); compute_izone equals the zone of the definition for every two-chain reference and cutoff; the reported value is the kernel residual on the centred fitted atoms, hence minimal over all rigid motions once the kernel is optimal among rotations (C06); '
   'identical structures score 0. Harness: implementation vs extracted model (exact mean squared deviation from the recorded rotation) and vs the '
   'specification (zone + identity pairs from Coq, minimum evaluated by an independent Kabsch) on generated complexes, 4 routines x 2 methods.',
